@@ -477,6 +477,60 @@ def oracle_save_load(fmt, job, res):
     return None
 
 
+# ---------------------------------------------------------------------- malformed / variant stream for the importers
+KEYWORDS = ["v", "f", "l", "vn", "vt", "OFF", "Vertices", "Edges", "Triangles", "Quadrilaterals", "Tetrahedra", "Hexahedra", "End",
+            "vertices", "tets", "[ATTR]", "[ATTS]", "[HEAD]"]
+
+
+def mutate_lines(rng, lines, geo=False):
+    """one random edit of a token file (list of lines of tokens); returns (kind, new lines)"""
+    L = [list(ln) for ln in lines]
+    kinds = ["del_tok", "del_line", "dup_line", "int_pm", "retype", "blank", "swap", "truncate", "keyword", "extra_tok"]
+    kind = rng.choice(kinds)
+    if not L:
+        return "blank", [[]]
+    i = rng.randrange(len(L))
+    if kind == "del_tok":
+        cand = [k for k, ln in enumerate(L) if ln]
+        if cand and not geo:
+            i = rng.choice(cand)
+            del L[i][rng.randrange(len(L[i]))]
+        else:
+            del L[i]
+    elif kind == "del_line":
+        del L[i]
+    elif kind == "dup_line":
+        L.insert(i, list(L[i]))
+    elif kind == "int_pm":
+        cand = [(a, b) for a, ln in enumerate(L) for b, t in enumerate(ln) if t[0] == "i"]
+        if cand:
+            a, b = rng.choice(cand)
+            L[a][b] = ["i", L[a][b][1] + rng.choice([-1, 1, 1, 2, -3])]
+    elif kind == "retype":
+        cand = [(a, b) for a, ln in enumerate(L) for b, t in enumerate(ln) if t[0] in ("i", "f")]
+        if cand:
+            a, b = rng.choice(cand)
+            L[a][b] = ["f", f2b(2.5)] if L[a][b][0] == "i" else ["i", rng.choice([0, 1, 3, -2])]
+    elif kind == "blank":
+        L.insert(i, [["w", ""]] if geo else [])
+    elif kind == "swap":
+        j = rng.randrange(len(L))
+        L[i], L[j] = L[j], L[i]
+    elif kind == "truncate":
+        L = L[:i]
+    elif kind == "keyword":
+        cand = [(a, b) for a, ln in enumerate(L) for b, t in enumerate(ln) if t[0] == "w" and t[1] in KEYWORDS]
+        if cand:
+            a, b = rng.choice(cand)
+            L[a][b] = ["w", rng.choice(KEYWORDS + [L[a][b][1] + "x"])]
+    elif kind == "extra_tok":
+        if geo:
+            L.insert(i, [rng.choice([["i", 7], ["f", f2b(0.5)], ["w", "zz"]])])
+        else:
+            L[i].insert(rng.randrange(len(L[i]) + 1), rng.choice([["i", 7], ["f", f2b(0.5)], ["w", "zz"]]))
+    return kind, L
+
+
 # ---------------------------------------------------------------------- reference codecs (independent of mouette)
 # Written from the format descriptions (Wavefront OBJ, Geomview OFF, INRIA Medit, .tet / .xyz conventions); they are the
 # Python twins of coq/theories/C04/Ref.v and are checked against it in the kernel-evaluated batches.
@@ -682,6 +736,168 @@ def expected_load_of_ref(fmt, mi):
             "C": [c for c in C if len(c) == 4] + [c for c in C if len(c) == 8]}
 
 
+# geogram_ascii: an independent writer laid out like geogram's own files (all sizes known before the data, comments on the
+# header lines) and an independent, count-driven reader (geogram reads nb_items * dim values, it does not look for the next header)
+GEO_SETS = {"V": "GEO::Mesh::vertices", "E": "GEO::Mesh::edges", "F": "GEO::Mesh::facets", "FC": "GEO::Mesh::facet_corners",
+            "C": "GEO::Mesh::cells", "CC": "GEO::Mesh::cell_corners", "CF": "GEO::Mesh::cell_facets"}
+GEO_TYPES = {"Float": ("double", 8), "Int": ("int", 4), "Bool": ("bool", 1)}
+
+
+def geo_ref_write(mi, adj=None, comments=True):
+    """text of a geogram_ascii file for the mesh (tetrahedral cells only), attributes of the types geogram knows"""
+    out = []
+
+    def c(t, what):
+        return t + (" # this is %s" % what if comments else "")
+
+    def atts(name, n):
+        out.extend(["[ATTS]", c('"%s"' % name, "the name of this attribute set"), c(str(n), "the number of items in this attribute set")])
+
+    def attr(setname, name, ty, esize, dim, vals):
+        out.extend(["[ATTR]", c('"%s"' % setname, "the name of the attribute set this attribute belongs to"), c('"%s"' % name, "the name of this attribute"),
+                    c('"%s"' % ty, "the type of the elements in this attribute"), c(str(esize), "the size of an element (in bytes)"),
+                    c(str(dim), "the number of elements per item")])
+        out.extend(vals)
+
+    def user(ck, n):
+        for name, ty, ar, vals in (mi.get("attrs") or {}).get(ck, []):
+            if ty not in GEO_TYPES or len(vals) != n * ar:
+                continue
+            tn, es = GEO_TYPES[ty]
+            attr(GEO_SETS[ck], name, tn, es, ar, [text_of_tok(["f", v[1]]) if v[0] == "f" else str(int(v[1])) for v in vals])
+    V, E, Fs, C = mi["V"], (mi["E"] or []), (mi["F"] or []), (mi["C"] or [])
+    out.extend(["[HEAD]", '"GEOGRAM"', '"1.0"'])
+    atts(GEO_SETS["V"], len(V))
+    attr(GEO_SETS["V"], "point", "double", 8, 3, [repr(b2f(x)) for v in V for x in v])
+    user("V", len(V))
+    if E:
+        atts(GEO_SETS["E"], len(E))
+        attr(GEO_SETS["E"], "GEO::Mesh::edges::edge_vertex", "index_t", 4, 2, [str(x) for e in E for x in e])
+        user("E", len(E))
+    if Fs:
+        atts(GEO_SETS["F"], len(Fs))
+        if any(len(f) != 3 for f in Fs):
+            ptr, p = [], 0
+            for f in Fs:
+                ptr.append(str(p))
+                p += len(f)
+            attr(GEO_SETS["F"], "GEO::Mesh::facets::facet_ptr", "index_t", 4, 1, ptr)
+        user("F", len(Fs))
+        nfc = sum(len(f) for f in Fs)
+        atts(GEO_SETS["FC"], nfc)
+        attr(GEO_SETS["FC"], "GEO::Mesh::facet_corners::corner_vertex", "index_t", 4, 1, [str(x) for f in Fs for x in f])
+        user("FC", nfc)
+    if C:
+        atts(GEO_SETS["C"], len(C))
+        user("C", len(C))
+        ncc = sum(len(c_) for c_ in C)
+        atts(GEO_SETS["CC"], ncc)
+        attr(GEO_SETS["CC"], "GEO::Mesh::cell_corners::corner_vertex", "index_t", 4, 1, [str(x) for c_ in C for x in c_])
+        user("CC", ncc)
+        if adj is not None:
+            atts(GEO_SETS["CF"], len(adj))
+            attr(GEO_SETS["CF"], "GEO::Mesh::cell_facets::adjacent_cell", "index_t", 4, 1, [str(x) for x in adj])
+            user("CF", len(adj))
+    return "".join(x + "\n" for x in out)
+
+
+def geo_ref_read(text):
+    """count-driven reader of geogram_ascii: {"V","E","F","C","attrs": {set: {name: (type, dim, values)}}} or None"""
+    lines = [ln.split("#")[0].strip() for ln in text.split("\n")]
+    if lines and lines[-1] == "":
+        lines.pop()
+    pos = [0]
+
+    def nxt():
+        if pos[0] >= len(lines):
+            raise RefError("eof")
+        pos[0] += 1
+        return lines[pos[0] - 1]
+
+    def q():
+        t = nxt()
+        if len(t) < 2 or t[0] != '"' or t[-1] != '"':
+            raise RefError("quoted string expected")
+        return t[1:-1]
+    try:
+        sizes, attrs = {}, {}
+        if nxt() != "[HEAD]" or q() != "GEOGRAM":
+            raise RefError("header")
+        q()
+        while pos[0] < len(lines):
+            kind = nxt()
+            if kind == "[ATTS]":
+                name = q()
+                sizes[name] = int(nxt())
+            elif kind == "[ATTR]":
+                setname, name, ty = q(), q(), q()
+                int(nxt())
+                dim = int(nxt())
+                if setname not in sizes:
+                    raise RefError("attribute of an undeclared set")
+                vals = [nxt() for _ in range(sizes[setname] * dim)]
+                attrs.setdefault(setname, {})[name] = (ty, dim, vals)
+            else:
+                raise RefError("chunk header expected, got %r" % kind)
+
+        def ints(setname, name):
+            a = attrs.get(setname, {}).pop(name, None)
+            return None if a is None else [int(x) for x in a[2]]
+        pt = attrs.get(GEO_SETS["V"], {}).pop("point", None)
+        V = []
+        if pt is not None:
+            if pt[1] != 3:
+                raise RefError("point dimension")
+            V = [[f2b(float(x)) for x in pt[2][3 * i: 3 * i + 3]] for i in range(len(pt[2]) // 3)]
+        ev = ints(GEO_SETS["E"], "GEO::Mesh::edges::edge_vertex") or []
+        E = [ev[2 * i: 2 * i + 2] for i in range(len(ev) // 2)]
+
+        def elements(setk, ptrname, cornerk, cornername, default):
+            n = sizes.get(GEO_SETS[setk], 0)
+            cv = ints(GEO_SETS[cornerk], cornername) or []
+            ptr = ints(GEO_SETS[setk], ptrname)
+            if ptr is None:
+                ptr = [default * i for i in range(n)]
+            ptr = ptr + [len(cv)]
+            return [cv[ptr[i]: ptr[i + 1]] for i in range(n)]
+        Fs = elements("F", "GEO::Mesh::facets::facet_ptr", "FC", "GEO::Mesh::facet_corners::corner_vertex", 3)
+        C = elements("C", "GEO::Mesh::cells::cell_ptr", "CC", "GEO::Mesh::cell_corners::corner_vertex", 4)
+        return {"V": V, "E": E, "F": Fs, "C": C, "attrs": attrs, "sizes": sizes}
+    except (RefError, ValueError):
+        return None
+
+
+def oracle_geogram_interop(mi, adj, text, ignore):
+    """the file mouette wrote, read by the independent reader"""
+    g = geo_ref_read(text)
+    if g is None:
+        return "an independent (count-driven) reader of geogram_ascii cannot read the file mouette wrote"
+    ign = set(ignore or [])
+    want = {"V": [list(v) for v in mi["V"]], "E": [] if "edges" in ign else [list(e) for e in (mi["E"] or [])],
+            "F": [] if "faces" in ign else (mi["F"] or []), "C": [] if "cells" in ign else (mi["C"] or [])}
+    for k in "VEFC":
+        if g[k] != want[k]:
+            return "an independent reader finds %s = %s in the file mouette wrote, the mesh has %s" % (k, json.dumps(g[k])[:200], json.dumps(want[k])[:200])
+    conv = {"b": lambda v: str(int(v[1])), "i": lambda v: str(v[1])}
+    for ck, setname in GEO_SETS.items():
+        present = {"V": True, "E": bool(want["E"]), "F": bool(want["F"]), "FC": bool(want["F"]), "C": bool(want["C"]), "CC": bool(want["C"]), "CF": bool(want["C"])}[ck]
+        for name, ty, ar, vals in ((mi.get("attrs") or {}).get(ck, []) if present else []):
+            a = g["attrs"].get(setname, {}).get(name)
+            if a is None:
+                return "attribute %r of %s is not in the file" % (name, ck)
+            if a[1] != ar or a[0] != {"Bool": "bool", "Int": "int", "Float": "double", "Complex": "complex", "String": "string"}[ty]:
+                return "attribute %r of %s is written as %s x%d" % (name, ck, a[0], a[1])
+            if ty in ("Bool", "Int") and a[2] != [conv[v[0]](v) for v in vals]:
+                return "attribute %r of %s has values %s in the file, %s in the mesh" % (name, ck, a[2][:8], vals[:8])
+            if ty == "Float" and [f2b(float(x)) for x in a[2]] != [v[1] for v in vals]:
+                return "float attribute %r of %s differs in the file" % (name, ck)
+    if want["C"] and adj is not None:
+        a = g["attrs"].get(GEO_SETS["CF"], {}).get("GEO::Mesh::cell_facets::adjacent_cell")
+        if a is None or [int(x) for x in a[2]] != adj:
+            return "cell adjacency in the file is %s, the mesh has %s" % (a and a[2], adj)
+    return None
+
+
 def raw_obs_term(r):
     return "None" if r is None else "(Some %s)" % raw_term(dict(r, attrs={}))
 
@@ -795,7 +1011,7 @@ def run_jobs(jobs, timeout=900):
 
 
 def shard_of(terms):
-    return max(20, min(400, -(-len(terms) // core.NCPU)))
+    return max(25, min(400, -(-len(terms) // 8)))
 
 
 def obs_raw_term(ld, with_attrs=False):
@@ -861,7 +1077,7 @@ def shrink_mesh(mesh, fails):
 # ---------------------------------------------------------------------- the check
 def run(ctx):
     quick = ctx.tier == "quick"
-    n_mesh = 60 if quick else 900
+    n_mesh = 40 if quick else 700
     ctx.rule = ("meshes built by mouette itself (RawMeshData.prepare) from generated vertex/edge/face/cell lists: point clouds, "
                 "polylines, triangle / quad / mixed / polygon surfaces, surfaces with explicit edges, tetrahedral, hexahedral and mixed "
                 "volumes, the empty mesh; 0-12 vertices; coordinates small integers, dyadic, special doubles (-0.0, subnormal, 1e308, 1e-310) "
@@ -913,6 +1129,9 @@ def run(ctx):
     res = run_jobs(jobs)
     ctx.log("implementation runs done")
 
+    extra_batches = []
+    lv_dbg = []
+    fails_files = []
     save_terms, load_terms, rt_terms, stl_terms = [], [], [], []
     save_idx, load_idx, stl_idx = [], [], []
     fails = []
@@ -1001,6 +1220,40 @@ def run(ctx):
         if job.get("ignore") is None and not (job.get("cfg") or {}):
             rw_jobs.append({"k": "load", "fmt": fmt, "text": text_of_lines(ref_write(fmt, mi))})
             rw_idx.append(idx)
+    geo_jobs, geo_idx = [], []
+    for idx, (job, r) in enumerate(zip(jobs, res)):
+        if job["fmt"] != "geogram_ascii" or "mesh_in" not in r or not mesh_modelled(r["mesh_in"]):
+            continue
+        mi = r["mesh_in"]
+        if "file" in r:
+            msg = oracle_geogram_interop(mi, r.get("adj"), r["file"]["text"], job.get("ignore"))
+            if msg:
+                fails.append((idx, msg))
+        if job.get("ignore") is None and all(len(c) == 4 for c in (mi["C"] or [])) and mi.get("FC") in (None, [x for f in (mi["F"] or []) for x in f]):
+            geo_jobs.append({"k": "load", "fmt": "geogram_ascii", "text": geo_ref_write(mi, r.get("adj"), comments=ctx.rng.random() < 0.7)})
+            geo_idx.append(idx)
+    geo_res = run_jobs(geo_jobs)
+    geo_terms = []
+    for idx, j2, r2 in zip(geo_idx, geo_jobs, geo_res):
+        mi = res[idx]["mesh_in"]
+        ld = r2.get("load") or {"raw_exc": r2.get("driver_exc", {"exc": "?", "msg": ""})}
+        ctx.count("reference-writer file loaded: geogram_ascii")
+        want = {"V": [list(v) for v in mi["V"]], "E": [list(e) for e in (mi["E"] or [])], "F": mi["F"] or [], "C": mi["C"] or []}
+        if "raw_exc" in ld:
+            fails.append((idx, "loading a geogram_ascii file written by an independent writer raised %s: %s" % (ld["raw_exc"]["exc"], ld["raw_exc"]["msg"])))
+        elif any(ld["raw"][k] != want[k] for k in "VEFC"):
+            fails.append((idx, "a geogram_ascii file written by an independent writer loads as %s instead of %s"
+                          % (json.dumps({k: ld["raw"][k] for k in "VEFC"})[:200], json.dumps(want)[:200])))
+        else:
+            mi2 = dict(mi, attrs={ck: [a for a in al if a[1] in GEO_TYPES and (ck != "CF" or res[idx].get("adj") is not None)]
+                                  for ck, al in (mi.get("attrs") or {}).items()})
+            msg = oracle_geogram_attrs(mi2, res[idx].get("adj"), ld["raw"], None)
+            if msg:
+                fails.append((idx, "independent writer's geogram_ascii file: " + msg))
+        ot, ct = obs_raw_term(ld, with_attrs=True)
+        if ot is not None and printable(j2["text"].replace("\n", " ")):
+            geo_terms.append("(Fgeo, %s, %s, %s)" % (lines_term(tokenize_geogram(j2["text"])), ot, ct))
+    extra_batches.append(("georef", geo_terms, "check_load", "(fmt * list zline * option zraw * option (option string))"))
     rw_res = run_jobs(rw_jobs)
     for idx, j2, r2 in zip(rw_idx, rw_jobs, rw_res):
         fmt = jobs[idx]["fmt"]
@@ -1020,19 +1273,96 @@ def run(ctx):
         if ot is not None:
             rw_terms.append("(%s, %s, %s, %s, %s)" % (FMT_COQ[fmt], mesh_term(mi), lines_term(tokenize(j2["text"])), ot, ct))
 
+    # ---- variant / malformed stream: edited copies of the files, mouette's importer against the model's parser
+    lv_jobs, lv_meta = [], []
+    nvar = 1 if quick else 3
+    for idx, (job, r) in enumerate(zip(jobs, res)):
+        fmt = job["fmt"]
+        if fmt == "stl" or "file" not in r or not printable(r["file"]["text"].replace("\n", " ")):
+            continue
+        geo = fmt == "geogram_ascii"
+        base = tokenize_geogram(r["file"]["text"]) if geo else tokenize(r["file"]["text"])
+        for _ in range(nvar):
+            kind, L = mutate_lines(ctx.rng, base, geo)
+            if ctx.rng.random() < 0.3:
+                kind2, L = mutate_lines(ctx.rng, L, geo)
+                kind += "+" + kind2
+            text = text_of_lines(L)
+            # the edit must survive re-tokenisation (the model is compared on the tokens of the file actually loaded)
+            L2 = tokenize_geogram(text) if geo else tokenize(text)
+            lv_jobs.append({"k": "load", "fmt": fmt, "text": text})
+            lv_meta.append((fmt, kind, L2))
+    # files of the test-suite's data directory: written by other programs (geogram, a Fortran mesh writer, Blender...)
+    real = []
+    for rel_, fmt in (("quads.obj", "obj"), ("one_ring_permut.obj", "obj"), ("two_pieces.obj", "obj"), ("cube.tet", "tet"),
+                      ("quad_split2.geogram_ascii", "geogram_ascii"), ("cube86.mesh", "mesh"), ("spline03.mesh", "mesh")):
+        pth = os.path.join(core.REPO, "tests", "data", rel_)
+        if os.path.exists(pth):
+            text = open(pth, newline="").read().replace("\r\n", "\n")
+            if printable(text.replace("\n", " ").replace("\t", " ")) and "/" not in text.replace("//", ""):
+                geo = fmt == "geogram_ascii"
+                lv_jobs.append({"k": "load", "fmt": fmt, "text": text})
+                lv_meta.append((fmt, "file " + rel_, tokenize_geogram(text) if geo else tokenize(text)))
+                real.append(len(lv_jobs) - 1)
+    lv_res = run_jobs(lv_jobs)
+    for k in real:
+        fmt, kind, L2 = lv_meta[k]
+        ld = lv_res[k].get("load") or {}
+        ctx.count("third-party file loaded: " + kind)
+        if "raw_exc" in ld:
+            fails_files.append("%s: loading raised %s: %s" % (kind, ld["raw_exc"]["exc"], ld["raw_exc"]["msg"]))
+            continue
+        if fmt == "geogram_ascii":
+            g = geo_ref_read(lv_jobs[k]["text"])
+        else:
+            g = ref_read(fmt, L2)
+        if g is None:
+            ctx.notes.append("%s is outside the reference reader's grammar" % kind)
+            continue
+        got = ld["raw"]
+        same = (got["V"] == g["V"] and sorted(sorted(e) for e in got["E"]) == sorted(sorted(e) for e in g["E"])
+                and sorted(got["F"]) == sorted(g["F"]) and sorted(got["C"]) == sorted(g["C"]))
+        if not same:
+            fails_files.append("%s: mouette loads %s, an independent reader finds %s" % (kind, json.dumps({x: got[x] for x in "VEFC"})[:200], json.dumps({x: g[x] for x in "VEFC"})[:200]))
+    lv_terms = []
+    for (fmt, kind, L2), r2 in zip(lv_meta, lv_res):
+        ld = r2.get("load")
+        if ld is None:
+            continue
+        ctx.count("variant stream %s: %s" % (fmt, "rejected" if "raw_exc" in ld else "loaded"))
+        ot, ct = obs_raw_term(ld, with_attrs=(fmt == "geogram_ascii"))
+        if ot is not None:
+            lv_terms.append("(%s, %s, %s, %s)" % (FMT_COQ[fmt], lines_term(L2), ot, ct))
+            lv_dbg.append((fmt, kind, L2, ld))
+    extra_batches.append(("loadvar", lv_terms, "check_load", "(fmt * list zline * option zraw * option (option string))"))
+
     ctx.obligation("oracle: every save -> load of the implementation is lossless within the format's vocabulary and of the implied class",
                    "oracle-on-implementation", True, "%d failing cases" % len(fails))
     ctx.log("terms built")
     bad_s = bad_l = bad_r = bad_t = []
+    bads = {}
     if b["model_ok"]:
-        bad_s = ctx.run_cases("save", HEADER, save_terms, "check_save", case_type="(fmt * switches * zmesh * option (list zline))", shard=shard_of(save_terms))
-        bad_l = ctx.run_cases("load", HEADER, load_terms, "check_load", case_type="(fmt * list zline * option zraw * option (option string))", shard=shard_of(load_terms))
-        bad_r = ctx.run_cases("roundtrip", HEADER, rt_terms, "check_roundtrip", case_type="(fmt * switches * zmesh)", shard=shard_of(rt_terms))
-        ctx.run_cases("refread", HEADER, rr_terms, "check_refread", case_type="(fmt * list zline * option zraw)", shard=shard_of(rr_terms))
-        ctx.run_cases("refwrite", HEADER, rw_terms, "check_refwrite", case_type="(fmt * zmesh * list zline * option zraw * option (option string))", shard=shard_of(rw_terms))
-        bad_t = ctx.run_cases("stl", HEADER, stl_terms, "check_stl", case_type="(smesh * option (list sfld) * option (list (list (list Z))))", shard=shard_of(stl_terms))
+        import concurrent.futures as cf
+        batches = [
+            ("save", save_terms, "check_save", "(fmt * switches * zmesh * option (list zline))"),
+            ("load", load_terms, "check_load", "(fmt * list zline * option zraw * option (option string))"),
+            ("roundtrip", rt_terms, "check_roundtrip", "(fmt * switches * zmesh)"),
+            ("refread", rr_terms, "check_refread", "(fmt * list zline * option zraw)"),
+            ("refwrite", rw_terms, "check_refwrite", "(fmt * zmesh * list zline * option zraw * option (option string))"),
+            ("stl", stl_terms, "check_stl", "(smesh * option (list sfld) * option (list (list (list Z))))"),
+        ] + extra_batches
+        with cf.ThreadPoolExecutor(max_workers=len(batches)) as ex:
+            futs = {name: ex.submit(ctx.run_cases, name, HEADER, terms, fn, case_type=ty, shard=shard_of(terms))
+                    for name, terms, fn, ty in batches}
+        bads = {name: f.result() for name, f in futs.items()}
+        bad_s, bad_l, bad_r, bad_t = bads["save"], bads["load"], bads["roundtrip"], bads["stl"]
     else:
         ctx.obligation("correspondence batches", "correspondence", False, "model does not compile")
+    for i in (bads.get("loadvar") or [])[:6]:
+        fmt, kind, L2, ld = lv_dbg[i]
+        ctx.log("disagreement (variant stream) fmt=%s edit=%s" % (fmt, kind))
+        ctx.log("   file: %r" % text_of_lines(L2)[:500])
+        ctx.log("   load: %s" % json.dumps({k: v for k, v in ld.items() if k != "loaded"})[:500])
     for name, bad, idxs in (("save", bad_s, save_idx), ("load", bad_l, load_idx), ("stl", bad_t, stl_idx)):
         for i in (bad or [])[:4]:
             j = idxs[i]
@@ -1042,6 +1372,8 @@ def run(ctx):
             ctx.log("   load: %s" % json.dumps(res[j].get("load"))[:400])
 
     # ---- verdicts
+    for msg in fails_files:
+        ctx.violation("file written by another program: " + msg, {"file": msg}, key="thirdparty/" + msg.split(":")[0])
     reported = set()
     for idx, msg in fails[:100]:
         job = jobs[idx]
